@@ -532,4 +532,186 @@ def gqlAllOperations (rx : Rx) (fs : FilterSet) (doc : Doc) : List Op := doc.fil
 def gqlStatistic (rx : Rx) (fs : FilterSet) (doc : Doc) : Nat × Nat :=
   (doc.length, (doc.filter fun o => !(gqlShouldSkip rx fs o)).length)
 
+/-! ## object identity: `set` objects, `FilterSet` objects, derivation histories
+
+  Everything above treats a filter set as a value.  The Python objects are mutable: `FilterSet._includes/_excludes`
+  are references to `set` objects, `_add_filter` adds to them *in place*, and `include`/`exclude` of a schema (or of a
+  `LazySchema`) work on a `clone()` of the parent's `FilterSet`.  This section models the `set` objects by address, so
+  that sharing between a parent and the schemas derived from it is expressible.
+  Anchors: filters.py `FilterSet.__init__` (`arg or set()`), `clone`, `merge`, `_add_filter` (`set.add`);
+  schemas.py `BaseSchema.include/exclude/clone`; pytest/lazy.py `LazySchema.include/exclude`, `get_schema`. -/
+
+/-- the part of the Python heap that matters: `set` objects by address; `next` is the first unused address -/
+structure Heap where
+  cells : Nat → List Filter
+  next : Nat
+
+def Heap.empty : Heap := ⟨fun _ => [], 0⟩
+
+def upd (f : Nat → List Filter) (k : Nat) (v : List Filter) : Nat → List Filter := fun j => if j = k then v else f j
+
+/-- a new `set` object -/
+def Heap.alloc (h : Heap) (v : List Filter) : Heap × Nat := (⟨upd h.cells h.next v, h.next + 1⟩, h.next)
+
+/-- in-place change of an existing `set` object -/
+def Heap.write (h : Heap) (a : Nat) (v : List Filter) : Heap := ⟨upd h.cells a v, h.next⟩
+
+/-- a `FilterSet` object: its two slots refer to `set` objects (the slots are never rebound after `__init__`) -/
+structure FSRef where
+  inc : Nat
+  exc : Nat
+  deriving DecidableEq, Repr
+
+/-- the filter set (as a value) an object denotes in a heap -/
+def denote (h : Heap) (r : FSRef) : FilterSet := ⟨h.cells r.inc, h.cells r.exc⟩
+
+/-- `arg or set()`: an empty set passed to the constructor is replaced by a fresh one, a non-empty one is *kept* -/
+def orFresh (h : Heap) (a : Nat) : Heap × Nat := if (h.cells a).isEmpty then h.alloc [] else (h, a)
+
+/-- `FilterSet.__init__(_includes=i, _excludes=e)` -/
+def fsInit (h : Heap) (i e : Nat) : Heap × FSRef :=
+  let a := orFresh h i
+  let b := orFresh a.1 e
+  (b.1, ⟨a.2, b.2⟩)
+
+/-- `FilterSet()` -/
+def fsNew (h : Heap) : Heap × FSRef :=
+  let a := h.alloc []
+  let b := a.1.alloc []
+  (b.1, ⟨a.2, b.2⟩)
+
+/-- `FilterSet.clone`: both sets are copied, the copies go through the constructor -/
+def fsClone (h : Heap) (r : FSRef) : Heap × FSRef :=
+  let a := h.alloc (h.cells r.inc)
+  let b := a.1.alloc (a.1.cells r.exc)
+  fsInit b.1 a.2 b.2
+
+/-- `FilterSet.merge`: `|` builds new sets, which go through the constructor -/
+def fsMerge (h : Heap) (r o : FSRef) : Heap × FSRef :=
+  let a := h.alloc (unionFilters (h.cells r.inc) (h.cells o.inc))
+  let b := a.1.alloc (unionFilters (a.1.cells r.exc) (a.1.cells o.exc))
+  fsInit b.1 a.2 b.2
+
+/-- `FilterSet._add_filter` on an object: `set.add` on one of its two sets, in place; `some e` = `IncorrectUsage` -/
+def addFilterAt (h : Heap) (r : FSRef) (inc : Bool) (a : FilterArgs) : Heap × Option Err :=
+  match buildMatchers a with
+  | .error e => (h, some e)
+  | .ok ms =>
+    if ms.isEmpty then (h, some .emptyFilter)
+    else if (h.cells r.inc).contains ms || (h.cells r.exc).contains ms then (h, some .filterExists)
+    else if inc then (h.write r.inc (h.cells r.inc ++ [ms]), Option.none)
+    else (h.write r.exc (h.cells r.exc ++ [ms]), Option.none)
+
+/-- the `exclude` body after the clone (`deprecated=` flag as in `schemaExclude`); a first successful `exclude` stays
+    in the heap when the second one is refused -/
+def excludeAt (h : Heap) (r : FSRef) (a : FilterArgs) (deprecated : Bool) : Heap × Option Err :=
+  if deprecated then
+    match a.func with
+    | Option.none => addFilterAt h r false { a with func := some .isDeprecated }
+    | some _ =>
+      let first := addFilterAt h r false { FilterArgs.none with func := some .isDeprecated }
+      match first.2 with
+      | some e => (first.1, some e)
+      | Option.none => addFilterAt first.1 r false a
+  else addFilterAt h r false a
+
+/-- `BaseSchema.include/exclude`, `LazySchema.include/exclude`: clone the parent's `FilterSet`, add to the clone, hand
+    the clone to the new object.  Result: the heap afterwards and the new object's `FilterSet` (or the refusal). -/
+def deriveAt (h : Heap) (parent : FSRef) (c : Call) : Heap × Except Err FSRef :=
+  let cl := fsClone h parent
+  let r := if c.isInclude then addFilterAt cl.1 cl.2 true c.args else excludeAt cl.1 cl.2 c.args c.deprecated
+  match r.2 with
+  | some e => (r.1, .error e)
+  | Option.none => (r.1, .ok cl.2)
+
+/-- `get_schema`: as found the lazy object's `FilterSet` object itself is handed to the clone of the fixture's schema;
+    repaired, a merged `FilterSet` is built -/
+def resolveAt (v : Variant) (h : Heap) (fixture lazy : FSRef) : Heap × FSRef :=
+  match v with
+  | .asFound => (h, lazy)
+  | .repaired => fsMerge h fixture lazy
+
+/-- a run of in-place `filter_set.include(…)` (or `.exclude(…)`) calls on one object; the first refusal aborts and
+    leaves what was added so far in the object -/
+def addEachAt (inc : Bool) (h : Heap) (r : FSRef) : List FilterArgs → Heap × Option Err
+  | [] => (h, Option.none)
+  | a :: rest =>
+    let x := addFilterAt h r inc a
+    match x.2 with
+    | some e => (x.1, some e)
+    | Option.none => addEachAt inc x.1 r rest
+
+/-- `FilterArguments.into`: a new `FilterSet()` filled in place; the command line then assigns this object to the
+    freshly loaded schema (`schema.filter_set = config.filter_set`, cli/commands/run/executor.py) -/
+def cliIntoAt (h : Heap) (c : CliArgs) : Heap × Except Err FSRef :=
+  if hasDup c.includePath || hasDup c.includeMethod || hasDup c.includeName || hasDup c.includeTag
+     || hasDup c.includeOperationId || hasDup c.excludePath || hasDup c.excludeMethod || hasDup c.excludeName
+     || hasDup c.excludeTag || hasDup c.excludeOperationId then (h, .error .duplicateValues)
+  else
+    let n := fsNew h
+    let i := addEachAt true n.1 n.2 (cliIncludeCalls c)
+    match i.2 with
+    | some e => (i.1, .error e)
+    | Option.none =>
+      let x := addEachAt false i.1 n.2 (cliExcludeCalls c)
+      match x.2 with
+      | some e => (x.1, .error e)
+      | Option.none => (x.1, .ok n.2)
+
+/-- one step of a derivation history over the objects created so far (schemas and lazy schemas, by creation index) -/
+inductive HOp where
+  | derive (parent : Nat) (c : Call)     -- `objs[parent].include(…)` / `.exclude(…)`; a new object when accepted
+  | share (parent : Nat)                 -- `schema.clone()` / `schema.parametrize()`: a new schema, the SAME `FilterSet`
+  | resolve (lazy fixture : Nat)         -- `get_schema`: the fixture's schema re-created for a lazy object
+  | adopt (c : CliArgs)                  -- a command-line run: a freshly loaded schema is given `into()`'s `FilterSet`
+  deriving Repr
+
+structure HState where
+  heap : Heap
+  objs : List FSRef
+
+/-- `n` freshly loaded schemas / `from_fixture` objects, each with its own `FilterSet()` -/
+def HState.roots : Nat → HState
+  | 0 => ⟨Heap.empty, []⟩
+  | n + 1 =>
+    let s := HState.roots n
+    let r := fsNew s.heap
+    ⟨r.1, s.objs ++ [r.2]⟩
+
+/-- one step; the second component is the refusal, if any (out-of-range indices do nothing) -/
+def hstep (v : Variant) (s : HState) : HOp → HState × Option Err
+  | .derive p c =>
+    match s.objs[p]? with
+    | Option.none => (s, Option.none)
+    | some r =>
+      let d := deriveAt s.heap r c
+      match d.2 with
+      | .error e => (⟨d.1, s.objs⟩, some e)
+      | .ok r' => (⟨d.1, s.objs ++ [r']⟩, Option.none)
+  | .share p =>
+    match s.objs[p]? with
+    | Option.none => (s, Option.none)
+    | some r => (⟨s.heap, s.objs ++ [r]⟩, Option.none)
+  | .resolve l f =>
+    match s.objs[l]? with
+    | Option.none => (s, Option.none)
+    | some lz =>
+      match s.objs[f]? with
+      | Option.none => (s, Option.none)
+      | some fx =>
+        let r := resolveAt v s.heap fx lz
+        (⟨r.1, s.objs ++ [r.2]⟩, Option.none)
+  | .adopt c =>
+    let d := cliIntoAt s.heap c
+    match d.2 with
+    | .error e => (⟨d.1, s.objs⟩, some e)
+    | .ok r => (⟨d.1, s.objs ++ [r]⟩, Option.none)
+
+def hrun (v : Variant) (s : HState) : List HOp → HState
+  | [] => s
+  | op :: ops => hrun v (hstep v s op).1 ops
+
+/-- the filter sets all objects denote now -/
+def HState.values (s : HState) : List FilterSet := s.objs.map (denote s.heap)
+
 end SV.Model.C07
